@@ -24,16 +24,16 @@ type c10 struct{}
 
 func init() {
 	core.Register(c10{})
-	core.TierTable["C10"] = map[string]core.TierCfg{"quick": {Runs: 400, BudgetS: 100}, "thorough": {Runs: 30000, BudgetS: 1500}}
+	core.TierTable["C10"] = map[string]core.TierCfg{"quick": {Runs: 16000, BudgetS: 100}, "thorough": {Runs: 1200000, BudgetS: 1500}}
 }
 
 func (c10) ID() string    { return "C10" }
 func (c10) Level() string { return "exploration" }
 func (c10) Rule() string {
-	return "A case is a real git repository whose policy protects main (developers 1 and 2) and, by file rules, one exact odd-named path (one of 8 names with a non-ASCII character, space, backslash, *, ?, [, quote or tab; the rule's pattern is that name with pattern metacharacters backslash-escaped) and everything under a directory whose name contains a space (developer 1 only). The harness writes — with NUL-delimited plumbing and in-process signatures — a commit graph (linear commits, a root commit, a merge of a side branch) over an alphabet of path names with space, tab, quote, backslash, control and multi-byte characters and glob metacharacters, signed by developer 1, developer 2 or nobody, and records 1-3 pushes of main. Oracle: (i) GetFilePathsChangedByCommit, GetAllFilesInTree and GetEntriesInTree return exactly the names the harness wrote; (ii) full verification must reject when a non-merge commit newly introduced to main changes a protected path without developer 1's signature, and must accept when every commit that changes a protected path is signed by developer 1. Distinct = distinct (name classes touched, graph shape, signer pattern, verdict); non-trivial = an odd-named protected path was changed by a newly introduced commit."
+	return "A case is a real git repository whose policy protects main (developers 1 and 2) and, by file rules, one exact odd-named path (one of 8 names with a non-ASCII character, space, backslash, *, ?, [, quote or tab; the rule's pattern is that name with pattern metacharacters backslash-escaped) and everything under a directory whose name contains a space (developer 1 only). The harness writes — with NUL-delimited plumbing and in-process signatures — a commit graph (linear commits, a root commit, a merge of a side branch) over an alphabet of path names with space, tab, quote, backslash, control and multi-byte characters and glob metacharacters, signed by developer 1, developer 2 or nobody, and records 1-3 pushes of main. Oracle: (i) GetFilePathsChangedByCommit, GetAllFilesInTree and GetEntriesInTree return exactly the names the harness wrote; (ii) full verification must reject when a non-merge commit newly introduced to main changes a protected path without developer 1's signature, and must accept when every commit that changes a protected path is signed by developer 1. SimStore slice (10 of every 16 run indexes): a policy with a branch rule and 0-4 file rules (exact path, directory prefix with one or two patterns, a delegated file namespace with its own principal, thresholds 1-2), 1-7 pushes of 1-3 commits each (linear, or a side branch merged) signed by developers, an outsider or nobody, authorizations by any subset of developers for exactly the pushed change, rules coming, going and changing hands between pushes; full and latest-only verification at seeded points. Oracle there: the reference model (model.DecideFiles): every path changed by every non-merge commit newly introduced by an examined entry must, if file rules match it, be vouched for by enough of a matching rule's principals (commit signature plus the entry's approvals); merges next to protected paths make the verdict unspecified. Distinct = distinct (name classes touched, graph shape, signer pattern, verdict | per-entry decision pattern, verdict vector); non-trivial = a protected path was changed by a newly introduced commit and the verdict was specified."
 }
 func (c10) Components() map[string]string {
-	return map[string]string{"pkg/gitinterface (changes.go, tree.go, log.go, commit.go)": "real", "internal/policy verifier (file rules)": "real", "pkg/rsl": "real", "git 2.39 on tmpfs": "real", "history writer": "harness plumbing (mktree -z, hash-object, in-process sshsig)"}
+	return map[string]string{"pkg/gitinterface (changes.go, tree.go, log.go, commit.go)": "real", "internal/policy verifier (file rules)": "real", "pkg/rsl": "real", "git 2.39 on tmpfs": "real", "history writer": "harness plumbing (mktree -z, hash-object, in-process sshsig)", "gitstore.Storer in the SimStore slice": "stub (SimStore; its changed-path computation was compared call by call with real git by `verifsim diffstore`)"}
 }
 func (c10) Assumptions() []string {
 	return []string{"file rule patterns are a backslash-escaped literal name and a directory prefix ending in /*; unescaped metacharacters in patterns (real wildcards other than the trailing /*) are not generated", "reject obligations come from non-merge commits only; the accept direction requires merges to be signed by developer 1 whenever they differ from any parent in a protected path"}
@@ -65,10 +65,14 @@ func c10Protected(name string, exact string) bool {
 	return name == exact || strings.HasPrefix(name, "secret dir/")
 }
 
-func (c10) Generate(r *core.Rand, tier string, idx uint64) *core.Case {
+func (d c10) Generate(r *core.Rand, tier string, idx uint64) *core.Case {
+	if !c10IsGitCase(idx) {
+		return d.generateSim(r, tier, idx)
+	}
+	idx = c10GitSeq(idx)
 	c := &core.Case{Property: "C10", Engine: "git", Config: map[string]int{}, Flags: map[string]bool{}, Strs: map[string]string{}}
-	c.Config["exact"] = int(idx % uint64(len(c10ExactNames)))   // which exact name the literal file rule protects
-	c.Config["shape"] = int(idx/uint64(len(c10ExactNames))) % 3 // 0 linear, 1 merge of a side branch, 2 second root commit merged
+	c.Config["shape"] = int(idx % 3)                              // 0 linear, 1 merge of a side branch, 2 second root commit merged
+	c.Config["exact"] = int(idx / 3 % uint64(len(c10ExactNames))) // which exact name the literal file rule protects
 	c.Config["pushes"] = r.Range(1, 2)
 	c.Config["commits"] = r.Range(1, 3)
 	c.Flags["honest"] = r.Chance(0.4) // every protected change signed by developer 1
@@ -98,6 +102,9 @@ func signedCommit(repo *gitx.Repo, tree string, parents []string, msg string, ke
 }
 
 func (d c10) Execute(c *core.Case) (res *core.Result) {
+	if c.Engine == "simstore" {
+		return d.executeSim(c)
+	}
 	res = &core.Result{}
 	defer func() {
 		if r := recover(); r != nil {
